@@ -770,6 +770,14 @@ val merge_into : node -> node -> (node * node) res
 
 val include_name : nat -> mapping -> string -> string res
 
+type walker =
+  node -> string list -> string list -> node -> ((node * string list) * node)
+  res
+
+val include_loop :
+  nat -> ncfg -> cls_entry list -> walker -> string list -> string list ->
+  string list -> string list -> node -> (string list * node) res
+
 val render_impl :
   nat -> nat -> ncfg -> cls_entry list -> node -> string list -> string list
   -> node -> ((node * string list) * node) res
